@@ -6,8 +6,8 @@ Mirrors pywbem/_cim_types.py (CIMInt.__new__, Uint8 … Sint64, atomic_to_cim_xm
 Python's builtin `int(*args, **kwargs)` (CPython 3.12: long_new_impl, PyLong_FromString,
 _PyUnicode_TransformDecimalAndSpaceToASCII) is modelled concretely for ASCII text, Unicode white space,
 every base 0/2..36, prefixes, underscores, sign, the 4300 digit limit, floats by bit pattern, bool, None.
-Not modelled: non-ASCII Unicode decimal digits (category Nd) in str arguments (the model rejects them,
-CPython accepts them); objects with user-defined __int__/__index__/__trunc__.
+Unicode decimal digits (category Nd, table of Unicode 15.0) are accepted like CPython does.
+Not modelled: objects with user-defined __int__/__index__/__trunc__.
 -/
 import Pywbem.Proto
 import Pywbem.Generated.Config
@@ -76,7 +76,7 @@ inductive Arg where
 /-- str.isspace() characters (what _PyUnicode_TransformDecimalAndSpaceToASCII turns into ' ') -/
 def isPySpace (c : Char) : Bool :=
   let n := c.toNat
-  (9 ≤ n && n ≤ 13) || (28 ≤ n && n ≤ 32) || n == 0x85 || n == 0xA0 || n == 0x1680 ||
+  (9 ≤ n && n ≤ 13) || n == 32 || n == 0x85 || n == 0xA0 || n == 0x1680 ||
   (0x2000 ≤ n && n ≤ 0x200A) || n == 0x2028 || n == 0x2029 || n == 0x202F || n == 0x205F || n == 0x3000
 
 /-- Py_ISSPACE (bytes arguments): ASCII white space only -/
@@ -139,10 +139,27 @@ def longFromString (space : Nat → Bool) (s : List Nat) (base0 : Nat) : Except 
       else if !(rest.dropWhile space).isEmpty then .error .valueError
       else .ok (if neg then -(v : Int) else (v : Int))
 
-/-- str argument: Unicode white space becomes ' ', ASCII stays, anything else (incl. NUL) is invalid.
-    (Unicode decimal digits are NOT modelled: treated as invalid.) -/
+/-- code points of the digit zero of every Unicode (15.0, CPython 3.12) decimal-digit block (category Nd);
+    each block is 10 consecutive code points -/
+def ndZeros : List Nat :=
+  [1632, 1776, 1984, 2406, 2534, 2662, 2790, 2918, 3046, 3174, 3302, 3430, 3558, 3664, 3792, 3872, 4160, 4240, 6112,
+   6160, 6470, 6608, 6784, 6800, 6992, 7088, 7232, 7248, 42528, 43216, 43264, 43472, 43504, 43600, 44016, 65296, 66720,
+   68912, 69734, 69872, 69942, 70096, 70384, 70736, 70864, 71248, 71360, 71472, 71904, 72016, 72784, 73040, 73120,
+   73552, 92768, 92864, 93008, 120782, 120792, 120802, 120812, 120822, 123200, 123632, 124144, 125264, 130032]
+
+/-- Py_UNICODE_TODECIMAL for a non-ASCII code point -/
+def unicodeDecimal (n : Nat) : Option Nat :=
+  (ndZeros.find? (fun z => z ≤ n && n < z + 10)).map (fun z => n - z)
+
+/-- mirrors CPython _PyUnicode_TransformDecimalAndSpaceToASCII: ASCII stays, Unicode white space becomes ' ',
+    Unicode decimal digits become ASCII digits, anything else (and an embedded NUL) makes the string invalid -/
 def strToBytes (s : List Char) : Option (List Nat) :=
-  s.mapM (fun c => if isPySpace c then some 32 else if c.toNat == 0 || c.toNat ≥ 128 then none else some c.toNat)
+  s.mapM (fun c =>
+    let n := c.toNat
+    if n == 0 then none
+    else if n < 127 then some n
+    else if isPySpace c then some 32
+    else (unicodeDecimal n).map (fun d => 48 + d))
 
 def intOfStr (s : List Char) (base : Nat) : Except PyExc Int :=
   match strToBytes s with
